@@ -3,6 +3,7 @@
 Oracle: exact integer arithmetic in Python over (count, rate) points; the
 doubles the library returns are compared bit-for-bit with the correctly
 rounded expectation."""
+import math
 import struct
 
 from .. import runner
@@ -62,6 +63,16 @@ def gen_points(rng, n):
                     rates.append(r)
                     if eps == 0.0:
                         rates.append(-r)
+            # the closest doubles on either side of the threshold, and a ladder of small absolute distances from it
+            # (a rate derived by division, such as 13230000 / 300.00000000000006, lands there)
+            rates += [math.nextafter(base, 0.0), math.nextafter(base, math.inf), math.nextafter(math.nextafter(base, 0.0), 0.0)]
+            for d in (1e-12, 1e-10, 1e-8, 1e-7, 9e-7, 1e-6, 1.1e-6, 1e-5, 1e-4, 1e-3, 1e-2):
+                rates += [base - d, base + d]
+    # likewise around whole numbers of Hz that are not thresholds (the rate is truncated to whole Hz first)
+    for _ in range(20):
+        k = float(rng.choice([211, 419, 44100, 44101, 48000, 22051, rng.randrange(211, 400000)]))
+        rates += [math.nextafter(k, 0.0), math.nextafter(k, math.inf), k - 1e-7, k + 1e-7]
+
     # boundary lattice
     for r in rates:
         q = quant(r)
